@@ -143,13 +143,30 @@ def showRMeta (toi : Nat) : Option RMeta → String
       showOptStr m.contentType, toString m.cenc, showOptStr m.md5, showOti m.oti, showRCache m.cache,
       showOptStr m.etag, showList m.groups]
 
+/-- quick-xml 0.39 `normalize_xml11_eols` on the UTF-8 bytes of an element's text: CR LF, CR NEL, CR, NEL (c2 85)
+    and U+2028 (e2 80 a8) all become LF -/
+def eol11 : List Nat → List Nat
+  | 13 :: 10 :: r => 10 :: eol11 r
+  | 13 :: 194 :: 133 :: r => 10 :: eol11 r
+  | 13 :: r => 10 :: eol11 r
+  | 194 :: 133 :: r => 10 :: eol11 r
+  | 226 :: 128 :: 168 :: r => 10 :: eol11 r
+  | b :: r => b :: eol11 r
+  | [] => []
+
+/-- the same on a hex token -/
+def textRead (t : String) : String :=
+  match unhex t with
+  | some bs => hex (eol11 bs)
+  | none => t
+
 /-- flute's receiver view of an instance: expiry passed to `fdt_received` + metadata of every listed file -/
 def showRecv (i : AbsFdt) (now : Nat) : String :=
   let fs := sortBy (fun (f : AFile) => f.toi) i.files
   let rec go : List AFile → Option (List String)
     | [] => some []
     | f :: r =>
-      match recvMeta i f with
+      match recvMeta textRead i f with
       | .error _ => none
       | .ok m => match go r with
         | none => none
